@@ -148,7 +148,7 @@ def handle (k : Nat) (t : Sexp) : String :=
     | none => head ++ "layout-fail"
     | some lts =>
       let blocks := if lts.map (·.t) = (toksTop c0).map (·.t) then "blocks-as-predicted" else "blocks-differ"
-      match parseTop (6 * lts.length + 6) lts with
+      match parseTop (20 * lts.length + 6) lts with
       | none => head ++ blocks ++ " parse-fail"
       | some c =>
         let legal := if Legal c0 then "legal" else "illegal"
